@@ -190,6 +190,14 @@ def run(report):
         "a z3 countermodel that assigns values to uninterpreted terms (exp, log, symbolic powers) counts as a refutation "
         "only when a failing input is reproduced on the real decorated function; otherwise the function is undecided "
         "(allow-listed into the bounded class)",
+        "documented abs()/ceiling() functions: symbolically the returned expression must be a ceiling(E) node with E equal "
+        "to the law's solution for all arguments (abs: residual at +/- result and result >= 0); in addition an exact grid "
+        "of small rationals {1,2,3,4,8,9,16,27,81,1/2,1/3} (abs: also negatives) in seeded combinations, capped, compares "
+        "the real decorated function with op(solution of the law) computed by SymPy on plain numbers (60 digits, exact "
+        "integers recognised; for ceiling the float64 value of the published formula is accepted too)",
+        "functions whose law or body compares quantities get an extra stand-in walking the prefixes femto..tera; the law "
+        "is always judged on plain SI numbers (scale factors), never on Quantity objects, so the judge does not go through "
+        "the library's own comparison hook; an infinite side of the law must be matched by the same infinity",
         "bounded stand-in: positive magnitudes only; points where the law's own sides move by more than the tolerance "
         "under a 1e-13 relative change of the arguments, or where the published formula evaluated in float64 is itself "
         "off by more than the tolerance (catastrophic cancellation), are skipped as ill-conditioned",
